@@ -115,7 +115,7 @@ func init() {
 			if k == "htpasswd" {
 				g = vpJSON(in["groups"])
 			}
-			return fmt.Sprint(k == "htpasswd", g, vpJSON(in["rules"]), vpJSON(in["file"]), vpJSON(in["allowed"]), in["store"])
+			return fmt.Sprint(k == "htpasswd", g, vpJSON(in["rules"]), vpJSON(in["file"]), vpJSON(in["allowed"]), in["store"], in["pe"])
 		})
 		vpRunGroups(keys, groups, env.seed, func(rng *mrand.Rand, key string, cs []*vpCase) {
 			in0 := cs[0].In
@@ -145,6 +145,10 @@ func init() {
 				if ht {
 					cfg.Htpasswd = true
 					cfg.HtpasswdGroups = vpL(in0, "groups")
+				}
+				if vpB(in0, "pe") && !permissive {
+					cfg.Htpasswd = true
+					cfg.Legacy = map[string]bool{"preferEmailToUser": true}
 				}
 				return cfg
 			}
